@@ -1682,3 +1682,149 @@ Proof.
     apply (run_R (map decode t) _ _ R0).
   - cbn [map length]. rewrite map_length. apply Nat.eqb_refl.
 Qed.
+
+(* ------------------------------------------------------------------ readable consequences *)
+(* what the monitor has recorded after the model ran ops from the initial state *)
+Definition final_e (mn mx : Z) (ops : list op) : tst := snd (run_from (tst0 mn mx) ops).
+Definition final_m (mn mx : Z) (ops : list op) : mon := mon_run (mon0 mn mx) ops (fst (run_from (tst0 mn mx) ops)).
+
+Lemma final_R mn mx ops : cfg_ok_b mn mx = true -> R (final_e mn mx ops) (final_m mn mx ops).
+Proof. intros C. apply run_R. split; [reflexivity|right; apply Inv0; exact C]. Qed.
+
+(* deliveries are stored newest first: the i-th newest of an all_values subscriber is at position start + |d| - i *)
+Lemma contig_spec start lg d : contig_b start lg d = true ->
+  forall i p v k, nth_error d i = Some (p, v, k) ->
+  p = start + zlen d - Z.of_nat i /\ 1 <= p <= zlen lg /\ v = nthz lg (p - 1).
+Proof.
+  induction d as [|[[p0 v0] k0] d IH]; intros H i p v k E; [destruct i; discriminate|].
+  rewrite contig_b_cons in H.
+  apply andb_prop in H as (H & H5). apply andb_prop in H as (H & H4). apply andb_prop in H as (H & H3).
+  apply andb_prop in H as (H1 & H2).
+  destruct i as [|i]; cbn [nth_error] in E.
+  - injection E as <- <- <-. lia.
+  - destruct (IH H5 i p v k E) as (A & B & C). rewrite zlen_cons. split; [lia|]. split; assumption.
+Qed.
+
+(* skip modes: every delivery is at a position above all earlier ones and above the start *)
+Lemma incr_spec start d : incr_b start d = true ->
+  forall i p v k, nth_error d i = Some (p, v, k) -> last_pos start (skipn (S i) d) < p.
+Proof.
+  induction d as [|[[p0 v0] k0] d IH]; intros H i p v k E; [destruct i; discriminate|].
+  rewrite incr_b_cons in H. apply andb_prop in H as (H1 & H2).
+  destruct i as [|i]; cbn [nth_error] in E.
+  - injection E as <- <- <-. cbn [skipn]. lia.
+  - cbn [skipn]. apply (IH H2 i p v k E).
+Qed.
+
+Lemma final_rec_good mn mx ops s r : cfg_ok_b mn mx = true ->
+  get (m_subs (final_m mn mx ops)) s = Some r -> rec_good_b (m_log (final_m mn mx ops)) (Some r) = true.
+Proof. intros C G. apply (good_rec _ s); [apply (final_R mn mx ops C)|exact G]. Qed.
+
+Theorem contiguous mn mx ops s r : cfg_ok_b mn mx = true ->
+  get (m_subs (final_m mn mx ops)) s = Some r -> m_mode r = 0 ->
+  forall i p v k, nth_error (m_deliv r) i = Some (p, v, k) ->
+  p = m_start r + zlen (m_deliv r) - Z.of_nat i /\ 1 <= p <= zlen (m_log (final_m mn mx ops)) /\
+  v = nthz (m_log (final_m mn mx ops)) (p - 1).
+Proof.
+  intros C G M. pose proof (final_rec_good _ _ _ _ _ C G) as H. unfold rec_good_b in H. rewrite M in H. cbn [Z.eqb] in H.
+  apply andb_prop in H as (H & _). apply contig_spec. exact H.
+Qed.
+
+Theorem skip_forward mn mx ops s r : cfg_ok_b mn mx = true ->
+  get (m_subs (final_m mn mx ops)) s = Some r -> m_mode r <> 0 ->
+  forall i p v k, nth_error (m_deliv r) i = Some (p, v, k) ->
+  last_pos (m_start r) (skipn (S i) (m_deliv r)) < p /\ 1 <= p <= k /\ k <= zlen (m_log (final_m mn mx ops)) /\
+  v = nthz (m_log (final_m mn mx ops)) (p - 1) /\ (m_mode r = 2 -> p = k).
+Proof.
+  intros C G M i p v k E. pose proof (final_rec_good _ _ _ _ _ C G) as H. unfold rec_good_b in H.
+  destruct (m_mode r =? 0) eqn:M0; [lia|]. apply andb_prop in H as (H & _). apply andb_prop in H as (H1 & H2).
+  split; [apply (incr_spec _ _ H1 i p v k E)|].
+  rewrite forallb_forall in H2. specialize (H2 _ (nth_error_In _ _ E)). unfold skipval_b in H2.
+  destruct (m_mode r =? 2) eqn:M2; lia.
+Qed.
+
+Theorem eos_legitimate mn mx ops s r : cfg_ok_b mn mx = true ->
+  get (m_subs (final_m mn mx ops)) s = Some r -> m_eos r = true -> m_eos_ok r = true.
+Proof.
+  intros C G E. pose proof (final_rec_good _ _ _ _ _ C G) as H. unfold rec_good_b in H. rewrite E in H.
+  apply andb_prop in H as (_ & H). exact H.
+Qed.
+
+Theorem wakes_exact mn mx ops : cfg_ok_b mn mx = true -> m_bad (final_m mn mx ops) = false.
+Proof.
+  intros C. destruct (final_R mn mx ops C) as (G & _). unfold good_b in G. apply andb_prop in G as (G & _).
+  destruct (m_bad (final_m mn mx ops)); [discriminate|reflexivity].
+Qed.
+
+(* in every reachable state the list push_lk resumes is exactly the set of parked awaiters, each once *)
+Theorem wake_list_exact e m : Inv e m -> wake_all_ok (m_subs m) (flat_map wake_of (regs (pq e))) = true.
+Proof.
+  intros I. pose proof (i_awt _ _ I) as (AN & AB).
+  unfold wake_all_ok. apply andb_true_intro. split; [apply andb_true_intro; split|].
+  - apply nodup_b_NoDup. apply (NoDup_flat_map_sub awt_of); [|exact AN].
+    intros x. unfold wake_of, awt_of. destruct (r_used x); [left|right]; reflexivity.
+  - apply forallb_forall. intros a Ia. apply in_flat_map_rget in Ia as (h & Lh & Ia).
+    unfold wake_of in Ia. destruct (r_used (rget (regs (pq e)) h)) eqn:U; [|destruct Ia].
+    destruct (slot_owner _ _ _ I U) as (s & o & L & E & SB).
+    destruct (inv_rec _ _ _ _ I L) as (r & Gr & LV).
+    pose proof (i_sub _ _ I s o r L Gr) as (_ & _ & _ & _ & _ & _ & _ & AW & _). rewrite E in AW.
+    apply existsb_exists. exists (Some r). split; [apply get_In with (s := s); exact Gr|].
+    unfold parked_on. rewrite LV. cbn [andb]. destruct (m_pc r); cbn [awt_pc] in AW; rewrite AW in Ia; cbn in Ia; try tauto.
+    destruct Ia as [<-|[]]. apply Z.eqb_refl.
+  - apply forallb_forall. intros [r|] Ir; [|reflexivity]. unfold parked_in.
+    destruct (m_live r) eqn:LV; [|reflexivity]. destruct (m_pc r) eqn:PC; try reflexivity.
+    apply In_get in Ir as (s & Gr).
+    destruct (get (objs e) s) as [o|] eqn:GO; [|apply (i_none _ _ I) in GO; congruence].
+    pose proof (i_live _ _ I s o r GO Gr) as SL. rewrite LV in SL.
+    pose proof (live_obj_intro _ _ _ GO SL) as L.
+    pose proof (i_sub _ _ I s o r L Gr) as (U & _ & _ & _ & _ & _ & _ & AW & _). rewrite PC in AW. cbn [awt_pc] in AW.
+    apply memz_In. apply in_flat_map_rget. exists (s_h o). split; [apply rget_used_lt; exact U|].
+    unfold wake_of. rewrite U, AW. left. reflexivity.
+Qed.
+
+(* the retained window covers everything a non-lagging all_values subscriber still has to read *)
+Theorem window_sufficient mn mx ops s o r : cfg_ok_b mn mx = true -> m_viol (final_m mn mx ops) = false ->
+  live_obj (final_e mn mx ops) s = Some o -> get (m_subs (final_m mn mx ops)) s = Some r ->
+  m_mode r = 0 -> m_eos r = false -> m_lost r = false ->
+  consumed r <= npub (final_m mn mx ops) /\
+  npub (final_m mn mx ops) - consumed r <= zlen (qd (pq (final_e mn mx ops))) /\
+  npub (final_m mn mx ops) - consumed r <= maxl (pq (final_e mn mx ops)).
+Proof.
+  intros C V L G M E LS. destruct (final_R mn mx ops C) as (_ & [X|I]); [congruence|].
+  pose proof (i_sub _ _ I s o r L G) as (_ & _ & _ & _ & _ & _ & _ & _ & PO).
+  destruct (PO E) as (_ & M0 & _). destruct (M0 M) as (_ & _ & _ & A4). destruct (A4 LS) as (D1 & D2 & D3 & _).
+  split; [exact D1|split; assumption].
+Qed.
+
+(* a next() step of one subscriber never touches another subscriber's registration (copies included) *)
+Lemma next_step_frame e x s o k : free_obj e s = Some o -> (x = OReady s \/ x = OSuspend s \/ x = OGet s) ->
+  k <> s_h o -> rget (regs (pq (fst (step e x)))) k = rget (regs (pq e)) k.
+Proof.
+  intros F X N. unfold step, step_gen.
+  destruct X as [ -> | [ -> | -> ] ]; rewrite F; cbn [fst].
+  - unfold with_pq. cbn [pq]. unfold advance_lk.
+    destruct (r_kicked (rget (regs (pq e)) (s_h o))); [reflexivity|].
+    destruct ((wrap (r_pos (rget (regs (pq e)) (s_h o)) + 1) =? qpos (pq e)) && negb (closed (pq e))); [reflexivity|].
+    cbn [fst]. unfold set_reg, with_regs. cbn [regs]. apply rget_set_other. congruence.
+  - cbn [pq]. unfold advance_suspend_lk.
+    destruct (r_kicked (rget (regs (pq e)) (s_h o))); [reflexivity|].
+    destruct (closed (pq e)); [cbn [fst]; unfold set_reg, with_regs; cbn [regs]; apply rget_set_other; congruence|].
+    destruct (r_pos (with_pos (rget (regs (pq e)) (s_h o)) (wrap (r_pos (rget (regs (pq e)) (s_h o)) + 1))) =? qpos (pq e));
+      cbn [fst]; unfold set_reg, with_regs; cbn [regs]; apply rget_set_other; congruence.
+  - assert (GF : rget (regs (fst (get_value_lk (pq e) (s_h o) (s_mode o)))) k = rget (regs (pq e)) k).
+    { unfold get_value_lk.
+      repeat match goal with
+             | |- context[if ?c then _ else _] => destruct c
+             | |- context[match qidx ?a ?b with _ => _ end] => destruct (qidx a b)
+             end; cbn [fst]; try reflexivity;
+        unfold set_reg, with_regs; cbn [regs]; apply rget_set_other; congruence. }
+    destruct (snd (get_value_lk (pq e) (s_h o) (s_mode o))); cbn [fst with_pq pq]; try exact GF; reflexivity.
+Qed.
+
+Theorem copy_independent e m x s o s' o' : Inv e m -> free_obj e s = Some o -> live_obj e s' = Some o' -> s <> s' ->
+  (x = OReady s \/ x = OSuspend s \/ x = OGet s) ->
+  rget (regs (pq (fst (step e x)))) (s_h o') = rget (regs (pq e)) (s_h o').
+Proof.
+  intros I F L' N X. apply (next_step_frame e x s o); try assumption.
+  intros E. apply N. apply (i_inj _ _ I s s' o o' (free_live _ _ _ F) L'). symmetry. exact E.
+Qed.
